@@ -36,7 +36,8 @@ type Program struct {
 	cg      *callgraph.Graph
 	callers map[*ssa.Function]map[*ssa.Function]bool
 	// statistics
-	NInstr int
+	NInstr       int
+	storedFields map[*types.Var]bool
 }
 
 type loadOpts struct {
